@@ -3,6 +3,10 @@
 import json, os
 V = os.path.dirname(os.path.abspath(__file__))
 CHECKS = {
+ "C10": dict(
+  text="Randomised search (rapid) over specs with hostile free text and nested anonymous schemas, written as JSON or fully quoted YAML, x {minimal, full flatten, expand}: the generated server is compiled and asked (through the reflection harness) for restapi.SwaggerJSON, restapi.FlatSwaggerJSON and GET /swagger.json; oracle: JSON equality with the input tree for the original and served documents, and equality after local $ref expansion (own expander) for the flattened document. Three root causes of genuine differences are listed known findings.",
+  note="NUL and BOM in free text make generation fail (allowed by C09) and are not generated here; names of definitions lifted by the flattener are not compared; x-go-* additions are ignored.",
+  tech="property-based testing (rapid): program generation + round-trip (input spec vs embedded/served spec) with a normalising comparison"),
  "C04": dict(
   text="Randomised search (rapid) over server+client programs generated from one spec and compiled into one program (the generated client talks to the generated server through an in-process RoundTripper; handlers, client methods and parameter structs are driven by reflection): typed parameter values given to the client must equal the Params seen by the server handler; for each response plan (declared 2xx, declared other code, default, undeclared code, with payload and scalar/array headers) the client must return the typed result, typed error or generic API error carrying equal content. Three listed known findings.",
   note="The handler answers with a raw responder, so the generated server-side WriteResponse is not exercised; values are spec-conforming and representable in the collectionFormat; file parameters are not generated.",
